@@ -157,6 +157,10 @@ theorem fstep_good (k : FCfg) (hB : 2 ≤ k.B) (hdub : DubSound k.B k.dub) (hdlb
     simp only [fstep, Option.some.injEq] at h; subst h
     obtain ⟨hd, hc⟩ := fromParts_fits k.B hB s e
     exact ⟨hc, new_ffin k.B s e, Nat.le_succ_of_le hd⟩
+  | fromFloat man e =>
+    simp only [fstep, Option.some.injEq] at h; subst h
+    obtain ⟨hd, hc⟩ := fromParts_fits k.B hB man e
+    exact ⟨hc, new_ffin k.B man e, by show (Float.FRepr.new k.B man e).digits k.B ≤ digitsI k.B man + 1; omega⟩
   | convertInt n p =>
     simp only [fstep, Option.some.injEq] at h; subst h
     obtain ⟨hf, hc⟩ := convertInt_fits k.B hB k.m k.c p hok n
